@@ -10,7 +10,9 @@ from common import D, Model, corpus, langdata, pmap, rng, write_replay, load_kno
 BASE = D(2020, 5, 17, 12, 0)
 FILLER = ["the meeting was held", "and then we left", "es war einmal", "il était une fois", "потом мы ушли", "xyz", "foo bar baz", "la casa es", "它是", "そして",
           "see you", "RE: invoice", "p. 12", "no. 7", "call me", "am", "on", "in", "at 5", "etc.", "Mr. Smith", "v.1.2", "10%", "a-b", "(draft)", "“quoted”"]
-PUNCT = [" ", ". ", ", ", "\n", "! ", "? ", " - ", "; ", " ", "  ", "。", "،", " — ", ": ", "...", "\t", " (", ") ", "\r\n", "¿", "¡", " | "]
+PUNCT = [" ", ". ", ", ", "\n", "! ", "? ", " - ", "; ", " ", "  ", "。", "،", " — ", ": ", "...", "\t", " (", ") ", "\r\n", "¿", "¡", " | ",
+         # free-standing punctuation tokens (kept in a chunk with an empty translation)
+         " , ", " ] ", " [ ", " ' ", " ( ", " ) ", " . ", " \" ", " } "]
 
 
 def langstr(R, info):
